@@ -7,8 +7,10 @@
 //!   large <seed> <cases>               sampled n up to 1 MiB around page / word multiples
 //!   guard <seed> <cases>               buffers ending / starting right at PROT_NONE pages
 //!   sample <seed> <cases>              stratified random sample of the same cases (Miri)
+mod huge;
 mod place;
 mod sweep;
+mod watch;
 use std::hint::black_box;
 use sweep::*;
 use vh::Rng;
@@ -285,6 +287,151 @@ fn mode_sample(seed: u64, cases: u64) {
         }
     }
     finish(&ctx, "L1-sample");
+}
+
+/// Exactly-sized allocations with alignment 1 (made for Miri, whose allocator hands out odd
+/// addresses for them): every operand is a whole allocation of exactly the bytes the call may
+/// touch, so any access outside [p, p+n) -- including a masked read-modify-write of the aligned
+/// word around the first / last byte -- is out of bounds for Miri.
+fn mode_exact(seed: u64, cases: u64) {
+    use std::alloc::{alloc, dealloc, Layout};
+    let o = ops();
+    let mut r = Rng::new(seed ^ 0xE8AC7);
+    let mut counts = [0u64; 5];
+    let mut phases_hit = [[false; 16]; 5];
+    // allocate `len` bytes, align 1, preferably at address % 16 == want
+    let exact = |len: usize, want: usize, held: &mut Vec<(*mut u8, Layout)>| -> *mut u8 {
+        let l = Layout::from_size_align(len.max(1), 1).unwrap();
+        let mut last = std::ptr::null_mut();
+        for _ in 0..24 {
+            let p = unsafe { alloc(l) };
+            held.push((p, l));
+            last = p;
+            if p as usize % 16 == want {
+                break;
+            }
+        }
+        last
+    };
+    let mut viols = 0;
+    for i in 0..cases {
+        let f = (i % 5) as u8;
+        let n = match (i / 5) % 4 {
+            0 => r.range(1, THRESHOLD as u64 - 1) as usize,
+            1 => r.range(THRESHOLD as u64, 2 * THRESHOLD as u64) as usize,
+            2 => r.range(2 * THRESHOLD as u64 + 1, 96) as usize,
+            _ => r.range(97, 300) as usize,
+        };
+        let (w1, w2) = (r.below(16) as usize, r.below(16) as usize);
+        let mut held = Vec::new();
+        let fill = |p: *mut u8, len: usize, salt: usize| {
+            for k in 0..len {
+                unsafe { std::ptr::write_volatile(p.add(k), pat_s(k + salt)) };
+            }
+        };
+        let mut bad: Option<String> = None;
+        unsafe {
+            match f {
+                F_MEMSET => {
+                    let d = exact(n, w1, &mut held);
+                    let c = *r.pick(&[0i32, 0xff, 0x5a, 0x180]);
+                    let ret = (o.memset)(d, c, n);
+                    phases_hit[f as usize][d as usize % 16] = true;
+                    if ret != d {
+                        bad = Some("wrong-return-pointer".into());
+                    }
+                    for k in 0..n {
+                        if std::ptr::read_volatile(d.add(k)) != c as u8 {
+                            bad = Some(format!("wrong-bytes at {k}"));
+                            break;
+                        }
+                    }
+                }
+                F_MEMCPY => {
+                    let (d, s) = (exact(n, w1, &mut held), exact(n, w2, &mut held));
+                    fill(s, n, i as usize);
+                    let ret = (o.memcpy)(d, s, n);
+                    phases_hit[f as usize][d as usize % 16] = true;
+                    if ret != d {
+                        bad = Some("wrong-return-pointer".into());
+                    }
+                    for k in 0..n {
+                        if std::ptr::read_volatile(d.add(k)) != pat_s(k + i as usize) {
+                            bad = Some(format!("wrong-bytes at {k}"));
+                            break;
+                        }
+                    }
+                }
+                F_MEMMOVE => {
+                    // one allocation that is exactly the union of source and destination
+                    let dist = r.range(1, (n as u64 + 8).min(40)) as usize;
+                    let span = n + dist;
+                    let base = exact(span, w1, &mut held);
+                    fill(base, span, i as usize);
+                    let backward = r.chance(1, 2);
+                    let (d, s, soff) = if backward { (base.add(dist), base, 0) } else { (base, base.add(dist), dist) };
+                    let ret = (o.memmove)(d, s, n);
+                    phases_hit[f as usize][d as usize % 16] = true;
+                    if ret != d {
+                        bad = Some("wrong-return-pointer".into());
+                    }
+                    for k in 0..n {
+                        if std::ptr::read_volatile(d.add(k)) != pat_s(soff + k + i as usize) {
+                            bad = Some(format!("wrong-bytes at {k}"));
+                            break;
+                        }
+                    }
+                }
+                _ => {
+                    let (a, b) = (exact(n, w1, &mut held), exact(n, w2, &mut held));
+                    fill(a, n, 7);
+                    fill(b, n, 7);
+                    let p = if r.chance(1, 3) { n } else { r.below(n as u64) as usize };
+                    let mut want = 0;
+                    if p < n {
+                        let av = std::ptr::read_volatile(a.add(p));
+                        let bv = if av < 0x80 { av + 1 } else { av - 1 };
+                        std::ptr::write_volatile(b.add(p), bv);
+                        want = if av < bv { -1 } else { 1 };
+                    }
+                    let fun = if f == F_MEMCMP { o.memcmp } else { o.bcmp };
+                    let res = fun(a, b, n);
+                    phases_hit[f as usize][a as usize % 16] = true;
+                    let good = if f == F_MEMCMP { res.signum() == want } else { (res != 0) == (want != 0) };
+                    if !good {
+                        bad = Some(format!("wrong-result {res}"));
+                    }
+                }
+            }
+            for (p, l) in held {
+                dealloc(p, l);
+            }
+        }
+        counts[f as usize] += 1;
+        if let Some(b) = bad {
+            viols += 1;
+            if viols <= 3 {
+                let kind = b.split(' ').next().unwrap_or("wrong-bytes").to_string();
+                vh::viol(
+                    &format!("C08/{}/{kind}", FN_NAMES[f as usize]),
+                    &format!("{{\"fn\":{},\"n\":{n},\"operands\":\"exactly-sized allocations, alignment 1\",\"what\":{}}}", vh::js(FN_NAMES[f as usize]), vh::js(&b)),
+                );
+            }
+        }
+    }
+    let total: u64 = counts.iter().sum();
+    vh::eval(total);
+    vh::count(&format!("cases_L1-exact-alloc_{}", profile()), total);
+    for (i, name) in FN_NAMES.iter().enumerate() {
+        vh::count(&format!("cases_{name}"), counts[i]);
+        let odd = phases_hit[i].iter().enumerate().filter(|(k, h)| **h && k % 8 != 0).count();
+        vh::distinct(&format!("L1-exact-alloc/{}/{name}/{}", profile(), if odd >= 4 { "unaligned-starts>=4" } else { "few-unaligned-starts" }));
+        vh::count(&format!("exact_alloc_distinct_start_phases_{name}"), phases_hit[i].iter().filter(|h| **h).count() as u64);
+    }
+    vh::sample(
+        &format!("{{\"mode\":\"exactly-sized align-1 allocations\",\"profile\":{},\"cases\":{total},\"outcome\":\"no out-of-bounds access reported, results match\"}}", vh::js(profile())),
+        1,
+    );
 }
 
 fn mode_small(shard: usize, nshards: usize) {
@@ -605,6 +752,115 @@ mod xplace {
     }
 }
 
+// --------------------------------------------------------------------------------- neighbour watcher (two threads)
+#[cfg(not(miri))]
+mod xwatch {
+    use super::*;
+    use std::sync::atomic::{AtomicBool, Ordering};
+    use std::sync::Arc;
+
+    #[repr(align(64))]
+    struct Buf([u8; 1024]);
+
+    pub fn run(iters: u64) {
+        if std::thread::available_parallelism().map_or(1, |n| n.get()) < 2 {
+            vh::inconclusive("watch: fewer than 2 CPUs available, concurrent neighbour updates cannot be produced");
+            return;
+        }
+        let o = ops();
+        let mut dbuf = Box::new(Buf([0; 1024]));
+        let sbuf = Box::new(Buf([0x5A; 1024]));
+        let mut evals = 0u64;
+        for f in [F_MEMSET, F_MEMCPY, F_MEMMOVE] {
+            let mut calls_total = 0u64;
+            let mut writes_total = 0u64;
+            for (ci, &(phase, n)) in watch::CONFIGS.iter().enumerate() {
+                let dst = unsafe { dbuf.0.as_mut_ptr().add(256 + phase) };
+                let src = unsafe { sbuf.0.as_ptr().add(128 + (ci * 3) % 8) };
+                let started = Arc::new(AtomicBool::new(false));
+                let stop = Arc::new(AtomicBool::new(false));
+                let (st2, sp2, d_addr) = (started.clone(), stop.clone(), dst as usize);
+                let th = std::thread::spawn(move || unsafe { watch::watcher(d_addr, n, &st2, &sp2) });
+                while !started.load(Ordering::Acquire) {
+                    std::hint::spin_loop();
+                }
+                unsafe { watch::hammer(&o, f, dst, src, n, iters) };
+                stop.store(true, Ordering::Relaxed);
+                let mut r = th.join().unwrap();
+                unsafe { watch::final_check(dst as usize, n, &mut r) };
+                calls_total += iters;
+                writes_total += r.writes;
+                evals += 1;
+                if r.lost > 0 {
+                    watch::report(raw_out, "tiny_start::symbols::mem", f, phase, n, &r, iters);
+                    break;
+                }
+                if r.writes < 2000 {
+                    vh::inconclusive(&format!(
+                        "watch {} dst%8={phase} n={n}: the watcher thread got only {} writes in during {iters} calls",
+                        FN_NAMES[f as usize], r.writes
+                    ));
+                } else {
+                    vh::distinct(&format!("L1-watch/{}/dst%8={phase}/n={n}", FN_NAMES[f as usize]));
+                }
+            }
+            vh::count(&format!("watch_calls_{}", FN_NAMES[f as usize]), calls_total);
+            vh::count(&format!("watch_neighbour_writes_{}", FN_NAMES[f as usize]), writes_total);
+        }
+        vh::eval(evals);
+        vh::count(&format!("cases_L1-watch_{}", profile()), evals);
+    }
+}
+
+// --------------------------------------------------------------------------------- very large sizes
+#[cfg(not(miri))]
+mod xhuge {
+    use super::*;
+    use huge::{Arenas, HCtx, MARGIN, P_MAX};
+    extern "C" {
+        fn mmap(addr: *mut u8, len: usize, prot: i32, flags: i32, fd: i32, off: i64) -> *mut u8;
+    }
+    fn quiet(_: u8, _: usize) {}
+    pub fn run(seed: u64, calls: u64, power: u32, only_fn: u8) {
+        let top = power >= P_MAX;
+        let cap = ((if top { 1usize << power } else { 2usize << power }) + 2 * MARGIN + 8192) & !4095;
+        let mut a = [std::ptr::null_mut::<u8>(); 3];
+        for p in &mut a {
+            *p = unsafe { mmap(std::ptr::null_mut(), cap, 3, 0x22, -1, 0) };
+            if *p as isize == -1 {
+                vh::inconclusive("huge: mmap failed");
+                return;
+            }
+        }
+        let ar = Arenas { d: a[0], s: a[1], p: a[2], cap };
+        let mut ctx = HCtx::new(ops(), raw_out, "tiny_start::symbols::mem", ar, seed ^ (u64::from(power) << 32) ^ 0xC0FFEE);
+        unsafe {
+            ar.init();
+            ctx.sweep_power(power, calls as usize, only_fn, quiet);
+        }
+        let total: u64 = ctx.cases.iter().sum();
+        vh::eval(total);
+        vh::count(&format!("cases_L1-huge_{}", profile()), total);
+        vh::count("huge_bytes_processed_MiB", ctx.bytes >> 20);
+        for (i, name) in FN_NAMES.iter().enumerate() {
+            vh::count(&format!("cases_{name}"), ctx.cases[i]);
+            vh::count(&format!("huge_cases_{name}"), ctx.cases[i]);
+            for (k, kn) in KIND_NAMES.iter().enumerate() {
+                if ctx.per_kind[i][k] > 0 {
+                    vh::count(&format!("violating_cases[C08/{name}/{kn}]"), u64::from(ctx.per_kind[i][k]));
+                }
+            }
+        }
+        for (id, &hit) in ctx.cells.iter().enumerate() {
+            if hit != 0 {
+                let mut w = W::new();
+                huge::hcell_name(id, &mut w);
+                vh::distinct(&format!("L1-huge/{}", String::from_utf8_lossy(w.bytes())));
+            }
+        }
+    }
+}
+
 fn main() {
     #[cfg(not(miri))]
     fault::install();
@@ -639,8 +895,15 @@ fn main() {
         }
         "large" => mode_large(a.seed, a.budget),
         "sample" => mode_sample(a.seed, a.budget),
+        "exact" => mode_exact(a.seed, a.budget),
+        // watch <seed> <calls per configuration>
+        #[cfg(not(miri))]
+        "watch" => xwatch::run(a.budget),
         #[cfg(not(miri))]
         "guard" => guard::run(a.seed, a.budget),
+        // huge <seed> <calls per function> <power 20..26> [function 0..4, 255 = all]
+        #[cfg(not(miri))]
+        "huge" => xhuge::run(a.seed, a.budget, arg(0, 20) as u32, arg(1, 255) as u8),
         // xplace <seed> <sampled large n> <shard> <nshards> [draws per class pair]
         #[cfg(not(miri))]
         "xplace" => xplace::run(a.seed, a.budget, arg(0, 0), arg(1, 1), arg(2, 2)),
